@@ -142,6 +142,16 @@ func (p *proc) check(decls []VarDecl, pc, extra, wantVals []string, timeoutMs in
 	}
 	p.send("(check-sat)\n")
 	tq := time.Now()
+	// watchdog: a solver that ignores its own time limit (seen with cvc5 1.0's string solver and
+	// with z3 model construction) is killed; the query is then answered "unknown:solver died"
+	// and the owner starts a fresh process for the next one
+	limit := time.Duration(timeoutMs)*3*time.Millisecond + 30*time.Second
+	wd := time.AfterFunc(limit, func() {
+		if p.cmd != nil && p.cmd.Process != nil {
+			p.cmd.Process.Kill()
+		}
+	})
+	defer wd.Stop()
 	res := p.readLine()
 	if d := time.Since(tq); d > 2*time.Second && os.Getenv("VERIF_SLOWLOG") != "" {
 		last := ""
@@ -245,6 +255,15 @@ func NewSolver(timeoutMs int) *Solver {
 	return &Solver{abs: newProc("z3", true, timeoutMs), cache: map[string]string{}, TimeoutMs: timeoutMs}
 }
 
+// abstract returns the abstraction solver, restarted if it died (watchdog).
+func (s *Solver) abstract() *proc {
+	if s.abs.dead {
+		s.abs.close()
+		s.abs = newProc("z3", true, s.TimeoutMs)
+	}
+	return s.abs
+}
+
 func (s *Solver) precise() *proc {
 	if s.prec != nil && s.prec.dead {
 		s.prec.close()
@@ -300,7 +319,7 @@ func (s *Solver) Feasible(decls []VarDecl, pc []string, cond string) bool {
 		return r != "unsat"
 	}
 	s.Queries++
-	r, _ := s.abs.check(decls, pc, []string{cond}, nil, 5000)
+	r, _ := s.abstract().check(decls, pc, []string{cond}, nil, 5000)
 	s.count(r)
 	s.cache[ck] = r
 	return r != "unsat"
@@ -312,7 +331,7 @@ func (s *Solver) Check(decls []VarDecl, pc []string, extra []string, wantVals []
 	t0 := time.Now()
 	defer func() { s.Dur += time.Since(t0) }()
 	s.Queries++
-	r, _ := s.abs.check(decls, pc, extra, nil, s.TimeoutMs)
+	r, _ := s.abstract().check(decls, pc, extra, nil, s.TimeoutMs)
 	if r == "unsat" {
 		s.count(r)
 		return r, nil
